@@ -193,6 +193,7 @@ def run(chk):
     chk.decide(ok_deg and ok_grid, "declared-interpolation-settings-are-used", fi.qname,
                f"the dispatcher is built with degree {dk.get('polynomial_degree')} and grid {why}; required: the card's raw grid, "
                f"configs.interpolation_is_log and configs.interpolation_polynomial_degree", where=fi.where, how="PE with symbolic card")
+    _managers_follow_the_card(chk, src)
     # liveness
     R = E.reach(src, ["eko.runner.managed.solve", "eko.runner.parts.evolve", "eko.runner.parts.match", "eko.runner.recipes.create"])
     chk.floor("functions in the runner closure", len(R), 400)
@@ -477,3 +478,56 @@ def _plainness_by_evaluation(src):
         return (not bad), (f"the result still contains a {bad[0]}" if bad else "plain")
 
     return judge
+
+
+def _managers_follow_the_card(chk, src):
+    """What the computation gets (parts._managers, used by parts.evolve and parts.match alike), for several cards handled one after
+    the other in ONE process: the interpolator carries the grid, the log / linear flag and the degree of the card of THAT call."""
+    from fractions import Fraction
+
+    from ..pe import PE, Opaque, named_arguments
+
+    fm = src.func("eko.runner.parts._managers")
+    pe = PE(src)
+    xgc = src.cls("eko.interpolation.XGrid")
+    built = []
+
+    def mk_d(p_, a, k):
+        na = named_arguments(k)
+        d = Obj(src.cls("eko.interpolation.InterpolatorDispatcher"))
+        d.attrs.update(xgrid=na.get("xgrid"), polynomial_degree=na.get("polynomial_degree"))
+        built.append(d)
+        return d
+
+    pe.overrides["eko.interpolation.InterpolatorDispatcher"] = mk_d
+    pe.overrides["eko.runner.commons.atlas"] = lambda p_, a, k: "ATLAS"
+    pe.overrides["eko.runner.commons.couplings"] = lambda p_, a, k: "COUPLINGS"
+    g1 = [Fraction(1, 100), Fraction(1, 10), Fraction(1, 2), Fraction(1)]
+    g2 = [Fraction(1, 1000), Fraction(1, 10), Fraction(1, 2), Fraction(1)]
+    runs = [(g1, True, 2), (g1, False, 2), (g1, True, 2), (g1, True, 3), (g2, False, 3), (g1, False, 3)]
+    n = 0
+    for i, (grid, is_log, deg) in enumerate(runs):
+        card = Obj(src.cls("eko.io.runcards.OperatorCard"))
+        cfg = Obj(src.cls("eko.io.runcards.Configs"))
+        cfg.attrs.update(interpolation_polynomial_degree=deg, interpolation_is_log=is_log)
+        card.attrs.update(xgrid=pe.instantiate(xgc.qname, [list(grid)], {}), configs=cfg)       # as loaded: the object's own flag is the default
+        eko_ = Opaque()
+        eko_.theory_card = "THEORY"
+        eko_.operator_card = card
+        inst = f"call {i + 1} of one process: grid of {len(grid)} points from {grid[0]}, is_log={is_log}, degree {deg}"
+        try:
+            m = pe.call(fm.qname, [eko_])
+            d = pe.getattr(m, "interpolator")
+        except PERaise as e:
+            chk.fail("declared-interpolation-settings-are-used", fm.qname, f"{inst}: raises {e}", where=fm.where, instance=inst)
+            continue
+        n += 1
+        xg_ = d.attrs.get("xgrid") if isinstance(d, Obj) else None
+        pts = [dag.as_const(dag.tonode(v)) for v in pe.getattr(xg_, "raw").flat()] if isinstance(xg_, Obj) else None
+        flag = pe.getattr(xg_, "log") if isinstance(xg_, Obj) else None
+        dg = d.attrs.get("polynomial_degree") if isinstance(d, Obj) else None
+        chk.decide(pts == list(grid) and flag is is_log and dg == deg, "declared-interpolation-settings-are-used", fm.qname,
+                   f"{inst}: the computation interpolates on {[str(v) for v in pts] if pts else pts} with log={flag}, degree {dg} - not what this "
+                   f"call's card declares (settings of an earlier call of the same process are reused)", where=fm.where, instance=inst,
+                   how="PE of parts._managers for a sequence of cards in one evaluator")
+    chk.floor("manager constructions in one process", n, 6)
